@@ -290,6 +290,11 @@ func (eval Evaluator) matchScaleThenEvaluateInPlace(level int, el0 *rlwe.Ciphert
 
 	r0, r1, _ := eval.matchScalesBinary(el0.Scale.Uint64(), el1.Scale.Uint64())
 
+	// elOut is written before el1 is read
+	if el1 == elOut.El() {
+		el1 = el1.CopyNew()
+	}
+
 	for i := range el0.Value {
 		eval.parameters.RingQ().AtLevel(level).MulScalar(el0.Value[i], r0, elOut.Value[i])
 	}
